@@ -444,6 +444,37 @@ class Real:
         return "fired:" + ",".join(i.name for i in ns[0].inputs)
 
 
+    def rule_scatter_dyn(self, start, axis, dshape, tdshape):
+        """Apply the real redundant-ScatterND rule set to the index-chain pattern.
+        start: None (attribute absent) | int; axis: constant scalar; shapes of `data` and `transposed_data`."""
+        from onnx import TensorProto, helper, numpy_helper
+
+        from onnxscript.rewriter.rules.common import _redundant_scatter_nd as rsn
+
+        def vi(name, dt, shp):
+            if shp is None:
+                return helper.make_value_info(name, helper.make_tensor_type_proto(dt, None))
+            return helper.make_tensor_value_info(name, dt, list(shp))
+
+        inits = [numpy_helper.from_array(np.array(axis, dtype=np.int64), "ax"), numpy_helper.from_array(np.array(0, dtype=np.int64), "zero"),
+                 numpy_helper.from_array(np.array(1, dtype=np.int64), "one"), numpy_helper.from_array(np.array([-1], dtype=np.int64), "m1")]
+        nodes = [
+            helper.make_node("Shape", ["data"], ["sh"], **({} if start is None else {"start": start})),
+            helper.make_node("Gather", ["sh", "ax"], ["dim"], axis=0),
+            helper.make_node("Range", ["zero", "dim", "one"], ["r"]),
+            helper.make_node("Unsqueeze", ["r", "m1"], ["r2"]),
+            helper.make_node("ScatterND", ["td", "r2", "upd"], ["out"], reduction="none"),
+        ]
+        g = helper.make_graph(nodes, "g", [vi("data", TensorProto.FLOAT, dshape), vi("td", TensorProto.FLOAT, tdshape),
+                                           vi("upd", TensorProto.FLOAT, tdshape)], [vi("out", TensorProto.FLOAT, None)], initializer=inits)
+        m = self.ir.from_proto(helper.make_model(g, opset_imports=[helper.make_opsetid("", 18)], ir_version=8))
+        cnt = self.RewriteRuleSet([rsn.no_op_dynamic_scatter_nd_rule]).apply_to_model(m)
+        if cnt == 0:
+            return "F"
+        outn = [n for n in m.graph if n.outputs[0].name == "out" or n.op_type == "Identity"]
+        assert any(n.op_type == "Identity" and n.inputs[0].name == "upd" for n in m.graph)
+        return "T"
+
     # ---- rules (through real rule application on a one-node model)
     def _model(self, inputs, node_op, node_inputs, attrs, out_shape, out_dtype=None):
         import onnx
